@@ -69,13 +69,8 @@ func (mc *Checker) CheckPeers(peers []peer.ID) error {
 			if len(mc.metrics.PeerMetricAll(name, peer)) == 0 {
 				continue
 			}
-			if mc.FailedMetric(name, peer) {
-				err := mc.alert(peer, name)
-				if err != nil {
-					return err
-				}
-			} else {
-				mc.resetFailed(peer, name)
+			if err := mc.check(peer, name); err != nil {
+				return err
 			}
 		}
 	}
@@ -86,26 +81,35 @@ func (mc *Checker) CheckPeers(peers []peer.ID) error {
 // and no alert has been sent before.
 func (mc *Checker) CheckAll() error {
 	for _, metric := range mc.metrics.AllMetrics() {
-		if mc.FailedMetric(metric.Name, metric.Peer) {
-			err := mc.alert(metric.Peer, metric.Name)
-			if err != nil {
-				return err
-			}
-		} else {
-			mc.resetFailed(metric.Peer, metric.Name)
+		if err := mc.check(metric.Peer, metric.Name); err != nil {
+			return err
 		}
 	}
 
 	return nil
 }
 
-// resetFailed forgets that we alerted for a metric once it is healthy
-// again. Otherwise, when a metric is renewed right after an alert, the next
-// time it expires it would be silently removed without any alert.
-func (mc *Checker) resetFailed(pid peer.ID, metricName string) {
+// check decides whether a metric has failed and acts on the decision in
+// one critical section. Check rounds may overlap (the Watch ticker and
+// direct callers of CheckPeers/CheckAll): a "healthy" verdict applied
+// after another round has alerted for the same metric would forget that
+// alert and make the next round alert again for the same expiry.
+func (mc *Checker) check(pid peer.ID, metricName string) error {
 	mc.failedPeersMu.Lock()
 	defer mc.failedPeersMu.Unlock()
 
+	if mc.FailedMetric(metricName, pid) {
+		return mc.alert(pid, metricName)
+	}
+	mc.resetFailed(pid, metricName)
+	return nil
+}
+
+// resetFailed forgets that we alerted for a metric once it is healthy
+// again. Otherwise, when a metric is renewed right after an alert, the next
+// time it expires it would be silently removed without any alert.
+// Callers hold failedPeersMu.
+func (mc *Checker) resetFailed(pid peer.ID, metricName string) {
 	failedMetrics, ok := mc.failedPeers[pid]
 	if !ok {
 		return
@@ -116,10 +120,8 @@ func (mc *Checker) resetFailed(pid peer.ID, metricName string) {
 	}
 }
 
+// Callers hold failedPeersMu.
 func (mc *Checker) alert(pid peer.ID, metricName string) error {
-	mc.failedPeersMu.Lock()
-	defer mc.failedPeersMu.Unlock()
-
 	if _, ok := mc.failedPeers[pid]; !ok {
 		mc.failedPeers[pid] = make(map[string]int)
 	}
@@ -130,6 +132,11 @@ func (mc *Checker) alert(pid peer.ID, metricName string) error {
 			Name: metricName,
 			Peer: pid,
 		}
+	} else if !lastMetric.Expired() {
+		// A fresh metric arrived after the failure was established
+		// (the store is read in separate steps): nothing to alert
+		// about, and no alert must name a metric that is still valid.
+		return nil
 	}
 
 	// If above threshold, remove all metrics for that peer
